@@ -140,3 +140,65 @@ def mismatch_count(F, value, tracer, depth=0):
 
 def fn_is_cast(atom):
     return (atom_fn(atom) or "").startswith("cast_")
+
+
+def exits(tracer, ret):
+    """the ways a traced function returns: [(path condition as a frozenset of canonical (cond, polarity), value)], with early
+    `return`s and a conditional final value (if / else at the end) treated alike"""
+    from .symx import canon_cond
+    out = []
+
+    def canon(gs):
+        return frozenset((repr(canon_cond(g, p)[0]), canon_cond(g, p)[1]) for g, p in gs if isinstance(g, Poly))
+    early = []
+    for e in tracer.events:
+        if e.callee == "<return>" and not e.loops:
+            out.append((canon(e.guards), e.args[0]))
+            early.append(e.guards)
+    def split(v, gs):
+        a = single_atom(v) if isinstance(v, Poly) else None
+        if a and atom_fn(a) == "ite":
+            c, tv, fv = atom_args(a)
+            split(tv, gs + [(c, True)])
+            split(fv, gs + [(c, False)])
+        else:
+            out.append((canon(gs), v))
+    # the final value is reached when no early return was taken: under the negation of a single-condition early return
+    base = []
+    for g in early:
+        if len(g) == 1:
+            base.append((g[0][0], not g[0][1]))
+    split(ret, base)
+    return out
+
+
+def elementwise(F, t, value, S, x="x"):
+    """value == S.iter().[copied()].map(f)...collect(): return f applied to the variable x (None if not an order- and
+    length-preserving elementwise image of S)"""
+    a = single_atom(value) if isinstance(value, Poly) else None
+    if not (a and atom_fn(a) == "std::iter::Iterator::collect"):
+        return None
+    d = a[2]
+    if not (isinstance(d, tuple) and d[0] == "iterdesc"):
+        return None
+    d = d[1]
+    fns = []
+    while d[0] in ("map", "copied", "cloned"):
+        if d[0] == "map":
+            fns.append(d[2])
+        d = d[1]
+    if d not in (("elems", S), ("elems", vkey(S))):
+        return None
+    v = var(x)
+    for f in reversed(fns):
+        node = F.closures.get(f[1]) if isinstance(f, tuple) and f[0] == "closure" and isinstance(f[1], str) else None
+        try:
+            if node is not None:
+                v = t.apply(("closure", node, dict(getattr(t, "closure_envs", {}).get(f[1], {}))), [v])
+            elif isinstance(f, tuple) and f[0] in ("fn", "closure"):
+                v = t.apply(f, [v])
+            else:
+                return None
+        except Unsupported:
+            return None
+    return v
